@@ -22,11 +22,47 @@ import (
 type fmOpResult struct {
 	line string // model line (without the fault prefix)
 	impl string
+	plan string // the fault plan of the call as it happened: one letter per I/O action the call got to
+}
+
+// planOfEvents: one letter per model-visible I/O action among the events of one call, in order: '.' it succeeded,
+// 'x' it failed, for a pwrite 'n' / 'g' / 'w' = it failed with nothing / part / all of its bytes in the file
+func planOfEvents(evs []simfs.Event) string {
+	var sb strings.Builder
+	for _, e := range evs {
+		_, _, seg := segIDOf(e.Name)
+		vis := false
+		switch e.Kind {
+		case "write", "sync", "create", "delete":
+			vis = seg
+		case "commit", "setstable":
+			vis = true
+		}
+		if !vis {
+			continue
+		}
+		switch {
+		case !e.Failed:
+			sb.WriteByte('.')
+		case e.Kind == "write" && e.Landed == 0:
+			sb.WriteByte('n')
+		case e.Kind == "write" && e.Landed >= len(e.Data):
+			sb.WriteByte('w')
+		case e.Kind == "write":
+			sb.WriteByte('g')
+		default:
+			sb.WriteByte('x')
+		}
+	}
+	if !strings.ContainsAny(sb.String(), "xngw") {
+		return "-"
+	}
+	return sb.String()
 }
 
 // fmRun executes ops on a fresh disk. faultOp/faultKind/faultName/faultNth/landed: during op faultOp the nth
 // fault-eligible call of that kind on that file fails (faultOp < 0: no fault).
-func fmRun(segSize int, ops []string, faultOp int, faultKind, faultName string, faultNth, landed int) (res []fmOpResult, fired bool) {
+func fmRun(segSize int, ops []string, faultOp int, faultKind, faultName string, faultNth, landed int, persistent bool) (res []fmOpResult, fired bool) {
 	d := simfs.New()
 	d.Record = true
 	w, err := openWalOn(d, segSize, nil)
@@ -47,15 +83,18 @@ func fmRun(segSize int, ops []string, faultOp int, faultKind, faultName string, 
 			w, err = openWalOn(d, segSize, nil)
 			if err != nil {
 				w = nil
-				res = append(res, fmOpResult{"frestart", "err"})
+				res = append(res, fmOpResult{line: "frestart", impl: "err"})
 				return res, fired
 			}
-			res = append(res, fmOpResult{"frestart", logSummary(w)})
+			res = append(res, fmOpResult{line: "frestart", impl: logSummary(w)})
 			continue
 		}
 		if j == faultOp {
 			seen := 0
 			d.Fault = func(kind string, call int, name string) *simfs.FaultAction {
+				if fired && persistent && kind == faultKind {
+					return &simfs.FaultAction{Landed: landed} // every later call of that kind fails too, until the API call returns
+				}
 				if kind != faultKind || name != faultName || fired {
 					return nil
 				}
@@ -95,13 +134,12 @@ func fmRun(segSize int, ops []string, faultOp int, faultKind, faultName string, 
 			e = w.SetUint64(unhx(ws[1]), atoiU(ws[2]))
 			line = "setu 1 " + ws[2]
 		}
-		_ = start
 		d.Fault = nil
 		r := "ok"
 		if e != nil {
 			r = "err"
 		}
-		res = append(res, fmOpResult{line, r + " " + logSummary(w)})
+		res = append(res, fmOpResult{line, r + " " + logSummary(w), planOfEvents(d.Events[start:])})
 	}
 	return res, fired
 }
@@ -131,30 +169,26 @@ func faultModelTie(segSize int, ops []string, r *Rng, out *[]*cmCase, stats map[
 			opIdx = append(opIdx, j)
 		}
 	}
-	emit := func(res []fmOpResult, faultOp, k int, wf string, replay []string) {
+	emit := func(res []fmOpResult, replay []string) {
 		cc := &cmCase{}
 		cc.add("case x", "", nil)
 		for j, rr := range res {
 			if rr.line == "frestart" {
 				cc.add("frestart", rr.impl, replay)
 				if rr.impl != "err" {
-					cc.add("finv", "true", append(append([]string(nil), replay...), "model invariant FInv after the restart"))
+					cc.add("finv", "true", append(append([]string(nil), replay...), "model invariant FInvS after the restart"))
 				}
 				continue
 			}
-			ks := "-"
-			if j == faultOp {
-				ks = fmt.Sprint(k)
-			}
-			cc.add(fmt.Sprintf("f %s %s %s", ks, wf, rr.line), rr.impl, replay)
+			cc.add(fmt.Sprintf("f %s %s", rr.plan, rr.line), rr.impl, replay)
 			// the model's invariant of a (possibly faulted) process between calls, the hypothesis the fault theorems carry
-			cc.add("finv", "true", append(append([]string(nil), replay...), "model invariant FInv after call "+fmt.Sprint(j)))
+			cc.add("finv", "true", append(append([]string(nil), replay...), "model invariant FInvS after call "+fmt.Sprint(j)))
 		}
 		*out = append(*out, cc)
 	}
 	// no fault at all
-	if res, _ := fmRun(segSize, append(append([]string(nil), ops...), "restart"), -1, "", "", 0, 0); res != nil {
-		emit(res, -1, 0, "nothing", []string{fmt.Sprintf("segment size %d", segSize), "run: " + strings.Join(ops, " ; "), "no fault"})
+	if res, _ := fmRun(segSize, append(append([]string(nil), ops...), "restart"), -1, "", "", 0, 0, false); res != nil {
+		emit(res, []string{fmt.Sprintf("segment size %d", segSize), "run: " + strings.Join(ops, " ; "), "no fault"})
 		stats["fault-model:runs"]++
 	}
 	for si := 1; si < len(spans); si++ {
@@ -191,16 +225,26 @@ func faultModelTie(segSize int, ops []string, r *Rng, out *[]*cmCase, stats map[
 				}{"whole", 1 << 30})
 			}
 			for _, v := range variants {
-				full := append(append([]string(nil), ops...), "restart")
-				res, fired := fmRun(segSize, full, opIdx[si-1], faultKindOf(ev.Kind), ev.Name, nth, v.landed)
-				if res == nil || !fired {
-					stats["fault-model:not-fired"]++
-					continue
+				for _, persistent := range []bool{false, true} {
+					if persistent && (v.wf == "garbage" || r.Intn(2) == 0) {
+						continue
+					}
+					full := append(append([]string(nil), ops...), "restart")
+					res, fired := fmRun(segSize, full, opIdx[si-1], faultKindOf(ev.Kind), ev.Name, nth, v.landed, persistent)
+					if res == nil || !fired {
+						stats["fault-model:not-fired"]++
+						continue
+					}
+					mode := "once"
+					if persistent {
+						mode = "and every later " + ev.Kind + " until the call returns"
+						stats["fault-model:persistent"]++
+					}
+					emit(res, []string{fmt.Sprintf("segment size %d", segSize), "run: " + strings.Join(full, " ; "),
+						fmt.Sprintf("the %s of %s (I/O action %d of call %d: %s) fails (%s), bytes landed: %s; fault plan of that call as it happened: %s", ev.Kind, ev.Name, k, opIdx[si-1], clipS(sp.op), mode, v.wf, res[opIdx[si-1]].plan)})
+					stats["fault-model:runs"]++
+					stats["fault-model:"+ev.Kind]++
 				}
-				emit(res, opIdx[si-1], k, v.wf, []string{fmt.Sprintf("segment size %d", segSize), "run: " + strings.Join(full, " ; "),
-					fmt.Sprintf("the %s of %s (I/O action %d of call %d: %s) fails, bytes landed: %s", ev.Kind, ev.Name, k, opIdx[si-1], clipS(sp.op), v.wf)})
-				stats["fault-model:runs"]++
-				stats["fault-model:"+ev.Kind]++
 			}
 			k++
 		}
